@@ -331,8 +331,9 @@ class RF24:
             for b_array in buf:
                 result.append(self.send(b_array, ask_no_ack, force_retry, send_only))
             return result  # type: ignore[return-value]
-        if self._in[0] & 0x10 or self._in[0] & 1:
-            self.flush_tx()
+        # discard whatever is left in the TX FIFO; the cached status byte cannot tell if
+        # a failed payload is still there (the flags may have been cleared since)
+        self.flush_tx()
         if not send_only and self._in[0] >> 1 & 7 < 6:
             self.flush_rx()
         up_cnt = 0
